@@ -50,6 +50,20 @@ def rule_own(S):
     S.require('R-OWN', 'allocation sites', nsites, 12)
 
 
+def _retires_param(g, pid):
+    """Does g hand value::get_gc_info(<param pid>) to push_value_container?"""
+    for nd in g.all_nodes():
+        if is_call(nd, cq=Y + 'garbage_collection::push_value_container'):
+            a = call_args(g, nd)
+            for x in g.walk(a[0]) if a else []:
+                if x['k'] == 'DeclRefExpr' and x.get('dk') == 'binding':
+                    ini = R.var_decl_init(g, x.get('of')) if x.get('of') else None
+                    if ini is not None and any(is_call(y, cq=Y + 'value::get_gc_info') and
+                                               root_var(g, call_args(g, y)[0]) == pid for y in g.walk(ini)):
+                        return True
+    return False
+
+
 def rule_swap(S):
     facts = S.facts()
     S.rule('R-SWAP', 'put<V> (out-of-line): after link_or_value::set_value(v, created, &old) the path on which old != '
@@ -67,6 +81,13 @@ def rule_swap(S):
             old, retired = st
             if is_call(nd, cq=Y + 'link_or_value::set_value') and len(call_args(f, nd)) == 3:
                 return (root_var(f, call_args(f, nd)[2]), False)
+            tgl = R.lambda_target(facts, f, nd)
+            if tgl is not None and old is not None:
+                # a local closure that retires its parameter (get_gc_info(param) -> push_value_container)
+                args = call_args(f, nd)[1:]
+                for i_, a_ in enumerate(args):
+                    if root_var(f, a_) == old and i_ < len(tgl.params) and _retires_param(tgl, tgl.params[i_]['id']):
+                        return (old, True)
             if is_call(nd, cq=Y + 'garbage_collection::push_value_container') and old is not None:
                 a = call_args(f, nd)
                 good = False
